@@ -1,4 +1,4 @@
 SPECIFICATION Spec
-INVARIANTS LocalOnlyInside NotItself
+INVARIANTS LocalOnlyInside NotItself OwnBlockHidden
 CONSTRAINT Emit
 CHECK_DEADLOCK FALSE
